@@ -106,8 +106,23 @@ def _split_lines(region_str):
     lines : list of str
         A list of strings.
     """
-    return [line_.strip() for line in region_str.split('\n')
-            for line_ in _split_semicolon(line)]
+    lines = []
+    for line in region_str.split('\n'):
+        if _is_comment(line.strip()):
+            # a comment runs to the end of the line, semicolons included
+            lines.append(line.strip())
+        else:
+            lines.extend(line_.strip() for line_ in _split_semicolon(line))
+    return lines
+
+
+def _is_comment(line):
+    """
+    Whether a (stripped) line is a comment. DS9 writes text and composite
+    regions behind a comment character; those lines are not comments.
+    """
+    return (line.startswith('#')
+            and not line.startswith(('# text(', '# composite(')))
 
 
 def _parse_raw_data(region_str):
